@@ -109,6 +109,14 @@ func c12Scenarios(cfg runCfg) []Scenario {
 				i++
 			}
 		}
+		// enough time for minimisation, but the search for the first failure is slow (lazy one-time setup in
+		// the first test case takes longer than -rapid.shrinktime): the budget is for minimisation alone
+		for j := 0; j < 16; j++ {
+			if cfg.mine(i) {
+				out = append(out, Scenario{Family: "threshold", Seed: mix(cfg.seed, 12, 7, uint64(s), uint64(j)), K: 4, S: fmt.Sprintf("ge:%d", int64(1)<<uint(20+2*j)+int64(j)), X: map[string]string{"slow": "1"}})
+			}
+			i++
+		}
 		for _, coll := range []string{"slice-int", "slice-uint8", "string", "map"} {
 			for k := 0; k <= 32; k++ {
 				if (k+int(cfg.seed))%step != 0 && k != 0 && k != 32 {
@@ -217,6 +225,18 @@ func c12Run(t *testing.T, sc Scenario, res *Result) {
 			}
 			return true, ""
 		}
+	}
+	if sc.X["slow"] == "1" {
+		fl["rapid.shrinktime"] = "1s"
+		inner, first := body, true
+		body = func(x *X) {
+			if first {
+				first = false
+				time.Sleep(1200 * time.Millisecond)
+			}
+			inner(x)
+		}
+		res.inc("slow_search_runs")
 	}
 	start := time.Now()
 	cr := runBody(body, runOpts{name: "C12", flags: fl, lean: true})
